@@ -201,6 +201,9 @@ def check_C01(replay=None):
     for k in range(4):
         jobs.append(("random%d" % k, ["--fam", "random", "--n", nrand // 4, "--seed", chk.seed * 7 + k, "--layouts", 3, "--stack", 1 if k < 3 else 0]))
     traces = _asm_jobs_run(chk, jobs)
+    # literal spellings and keyword recognition at the level of the raw token stream
+    _lex_run(chk, [("chunks%d" % k, ["--mode", "chunks", "--len", 3, "--stride", 4 if thorough else 16, "--phase", k + chk.seed, "--stack", 1]) for k in range(4)]
+                  + [("rnd", ["--mode", "random", "--n", 20000 if thorough else 2000, "--seed", chk.seed])])
     chk.distinct = chk.evaluations
     chk.samples = [_slim(e) for e in vlib.sample_lines(traces[-1], 1)] + [_slim(e) for e in vlib.sample_lines(traces[0], 1)]
     chk.extra["exhaustive"] = False
@@ -928,6 +931,8 @@ def check_C18(replay=None):
         code, out, err = vlib.run_lace(["check", "-f", v, src])
         events.append({"ev": "featarg", "tag": v, "value": vlib.chars(v), "code": code})
     _cli_validate(chk, events, "gate")
+    # the gate at the level of the raw token stream, both flag values
+    _lex_run(chk, [("gate%d" % f, ["--mode", "chunks", "--len", 3, "--stride", 4 if thorough else 16, "--phase", chk.seed + f, "--stack", f]) for f in (0, 1)])
     # in-process: flipped flag, raw 0xD words
     traces = _dbg_jobs_run(chk, [("run", ["--mode", "run", "--n", 40 if thorough else 8, "--seed", chk.seed]),
                                  ("scn", ["--mode", "scenario", "--seed", chk.seed])])
@@ -1104,5 +1109,34 @@ def check_C05(replay=None):
             s["src"] = s["src"][:200]
             chk.samples.append(s)
         os.remove(out)
+    _lex_run(chk, [("chars%d" % k, ["--mode", "chars", "--len", 4 if thorough else 3, "--stride", 4, "--phase", k, "--stack", k % 2]) for k in range(4)])
     chk.distinct = chk.evaluations
     return chk.finish()
+
+
+# --------------------------------------------------------------------------------------------
+# Lexer token streams (Lexer.tla / Trace_Lex.tla), shared by C01, C05, C18
+# --------------------------------------------------------------------------------------------
+
+def _lex_run(chk, jobs):
+    """jobs: list of (name, args for `gen lex`)."""
+    def gen(job):
+        name, args = job
+        out = _wpath("%s_lex_%s.ndjson" % (chk.pid.lower(), name))
+        summ = harness(["gen", "lex"] + args + ["--out", out])
+        return out, summ, tlc_trace("Trace_Lex", out, timeout=2400)
+    total = 0
+    for out, summ, res in parallel(gen, jobs, 8):
+        chk.add_trace(res, res["nrec"])
+        total += res["nrec"]
+        if res["consumed"] != res["nrec"]:
+            raise vlib.ToolError("Trace_Lex consumed %s of %s" % (res["consumed"], res["nrec"]))
+        evs = read_events(out, res["bad"])
+        for i in sorted(res["bad"]):
+            e = evs[i]
+            first = (e["toks"][0][0] if e["toks"] else "none")
+            key = "lex:panic" if e["panic"] else "lex:%s" % first.split("(")[0]
+            chk.violation(key, "token stream of %r is not Lexer!Lex's: %s %s" % (e["src"], e["toks"][:4], e.get("msg", "")), {"family": "lex", "events": [e]})
+        os.remove(out)
+    chk.evaluations += total
+    chk.extra["lexer_texts"] = chk.extra.get("lexer_texts", 0) + total
